@@ -3,7 +3,7 @@ CONSTANTS
   Mods <- MCMods
   Absent <- MCAbsent
   Variant = "repaired"
-  MaxHistory = 4
+  MaxHistory = 3
 INVARIANT HistoryIndependent
 INVARIANT NoPoisoning
 INVARIANT ErrorNoted
